@@ -926,6 +926,11 @@ sc_logv (const char *filename, int lineno,
 {
   char                buffer[BUFSIZ];
 
+  /* an unregistered package logs as the default package, see sc_log */
+  if (package != -1 && !sc_package_is_registered (package)) {
+    package = -1;
+  }
+
 #ifdef SC_ENABLE_PTHREAD
   sc_package_lock (package);
 #endif
